@@ -29,6 +29,14 @@ FieldLen(f) ==
 RECURSIVE ByteLen(_)
 ByteLen(ld) == IF ld = <<>> THEN 0 ELSE FieldLen(Head(ld)) + ByteLen(Tail(ld))
 
+\* min(ByteLen(ld), cap + 1) without ever leaving 32-bit integers (filters over huge layouts)
+RECURSIVE ByteLenCap(_, _)
+ByteLenCap(ld, cap) ==
+  IF ld = <<>> THEN 0
+  ELSE LET h == FieldLen(Head(ld)) IN
+       IF h > cap THEN cap + 1
+       ELSE LET r == ByteLenCap(Tail(ld), cap - h) IN IF r > cap - h THEN cap + 1 ELSE h + r
+
 \* The pattern of a fill: never constant, able to look like any header byte.
 FillByte(id, i) == (id * 131 + i * 7) % 251      \* i is 0-based, seed 0
 
